@@ -127,6 +127,14 @@ def floats_cases():
             yield [[b'zadd', b'z', stored, b'm'], [b'zincrby', b'z', inc, b'm'], [b'zscore', b'z', b'm'], [b'zrange', b'z', b'0', b'-1', b'withscores']]
             yield [[b'zadd', b'z', stored, b'm'], [b'zadd', b'z', b'incr', inc, b'm'], [b'zscore', b'z', b'm']]
             yield [[b'zadd', b'z', stored, b'm'], [b'zincrby', b'z', inc, b'fresh'], [b'zscore', b'z', b'fresh'], [b'zrange', b'z', b'0', b'-1', b'withscores']]
+    # every float literal form as increment and as stored value of the string / hash commands, and as a SORT weight
+    forms = [b'1e999', b'-1e999', b'1e-999', b'-1e-999', b'1e308', b'1.7976931348623157e308', b'4.9e-324', b'2e-324', b'+inf', b'-infinity', b'Infinity', b'nan', b'-nan',
+             b'0x10', b'0x1p3', b' 1', b'1 ', b'\t1', b'1\n', b'1_0', b'1e', b'.5', b'5.', b'1e+2', b'1E2', b'', b'+', b'-', b'+1', b'-0', b'1\x00', b'\x001', b'1\xa0', b'\x851',
+             b'00012', b'0.1', b'1e22', b'123456789012345678901234567890']
+    for fm in forms:
+        yield Always([[b'set', b'f', b'10.5'], [b'incrbyfloat', b'f', fm], [b'get', b'f'], [b'set', b'g', fm], [b'incrbyfloat', b'g', b'1'], [b'get', b'g'], [b'incrbyfloat', b'fresh', fm], [b'get', b'fresh']])
+        yield Always([[b'hset', b'h', b'f', b'10.5', b'g', fm], [b'hincrbyfloat', b'h', b'f', fm], [b'hincrbyfloat', b'h', b'g', b'1'], [b'hincrbyfloat', b'h', b'new', fm], [b'hgetall', b'h']])
+        yield Always([[b'rpush', b'l', b'1', b'2'], [b'mset', b'w_1', fm, b'w_2', b'1.5'], [b'sort', b'l', b'by', b'w_*'], [b'rpush', b'l2', fm, b'3'], [b'sort', b'l2'], [b'sort', b'l2', b'alpha']])
     for bad in (b'nan', b'abc', b'1e400', b'', b' 1'):
         for n in (1, 2):
             pre = [[b'zadd', b'z', b'1', b'a', b'2', b'b'], [b'expire', b'z', b'100']]
